@@ -31,15 +31,74 @@ def gen_space(repo):
             f"Definition SPACE_RANGES : list (Z * Z) :=\n  [{body}].\n")
 
 
-def _regex_src(tree, name):
-    node = find_assign(tree, name)
+def _regex_literal(node, what):
     if not (isinstance(node, ast.Call) and isinstance(node.func, ast.Attribute) and node.func.attr == "compile"
             and len(node.args) == 1 and not node.keywords):
-        raise Untranslatable(f"{name}: not a plain re.compile(<literal>)")
-    s = literal(node.args[0], name)
+        raise Untranslatable(f"{what}: not a plain re.compile(<literal>)")
+    s = literal(node.args[0], what)
     if not isinstance(s, str):
-        raise Untranslatable(f"{name}: pattern is not a str")
+        raise Untranslatable(f"{what}: pattern is not a str")
     return s
+
+
+def _regex_used(tree, fn, method, what):
+    """source of the module-level compiled regex whose .<method>(...) the function calls -- found by use,
+    not by the name it happens to be bound to"""
+    names = {n.func.value.id for n in ast.walk(fn)
+             if isinstance(n, ast.Call) and isinstance(n.func, ast.Attribute) and n.func.attr == method
+             and isinstance(n.func.value, ast.Name)}
+    found = []
+    for nm in sorted(names):
+        try:
+            found.append(_regex_literal(find_assign(tree, nm), what))
+        except Untranslatable:
+            pass
+    if len(found) != 1:
+        raise Untranslatable(f"{what}: expected exactly one module-level compiled regex used via .{method}()")
+    return found[0]
+
+
+def _assignments(fn, name):
+    """values assigned to the local `name` anywhere in fn: (kind, value, inside_loop)"""
+    out = []
+
+    def walk(node, in_loop):
+        for child in ast.iter_child_nodes(node):
+            loop = in_loop or isinstance(node, (ast.For, ast.While))
+            if isinstance(child, ast.Assign) and any(isinstance(t, ast.Name) and t.id == name for t in child.targets):
+                out.append(("=", child.value, loop))
+            elif isinstance(child, ast.AugAssign) and isinstance(child.target, ast.Name) and child.target.id == name:
+                out.append((type(child.op).__name__, child.value, loop))
+            walk(child, loop)
+    walk(fn, False)
+    return out
+
+
+def _resolve(fn, node, depth=3):
+    """follow a local that is assigned exactly once (x = <expr>) to its expression"""
+    while depth and isinstance(node, ast.Name):
+        vals = _assignments(fn, node.id)
+        if len(vals) != 1 or vals[0][0] != "=":
+            break
+        node = vals[0][1]
+        depth -= 1
+    return node
+
+
+def _is_running_column(fn, node):
+    """`node` is a local that starts at the constant 0 outside the loop and is only ever re-assigned or
+    incremented inside the loop with the result of a call (cell_len of a word / of the last chopped line)
+    -- the running cell position of the current line, whatever it is called"""
+    if not isinstance(node, ast.Name):
+        return False
+    vals = _assignments(fn, node.id)
+    init = [v for k, v, loop in vals if not loop]
+    upd = [(k, v) for k, v, loop in vals if loop]
+    if len(init) != 1 or not (isinstance(init[0], ast.Constant) and init[0].value == 0):
+        return False
+    if not upd or not any(k == "Add" for k, _ in upd) or not any(k == "=" for k, _ in upd):
+        return False
+    return all(k in ("=", "Add") and isinstance(v, ast.Call) for k, v in upd)
 
 
 def _calls(fn, attr):
@@ -71,8 +130,11 @@ def gen_wrap_facts(repo):
     cont_t, _ = parse(repo, "rich/containers.py")
     ctrl_t, _ = parse(repo, "rich/control.py")
     out = [HEADER]
-    out.append(f"Definition re_word_src : list Z := {strlit(_regex_src(wrap_t, 're_word'))}.\n")
-    out.append(f"Definition re_whitespace_src : list Z := {strlit(_regex_src(text_t, '_re_whitespace'))}.\n")
+    # the regexes are identified by their use: the pattern `words` matches with, the pattern rstrip_end searches
+    words_f = find_func(wrap_t.body, "words")
+    out.append(f"Definition re_word_src : list Z := {strlit(_regex_used(wrap_t, words_f, 'match', 're_word'))}.\n")
+    rse_f = find_func(find_class(text_t, "Text").body, "rstrip_end")
+    out.append(f"Definition re_whitespace_src : list Z := {strlit(_regex_used(text_t, rse_f, 'search', '_re_whitespace'))}.\n")
     codes = literal(find_assign(ctrl_t, "STRIP_CONTROL_CODES"), "STRIP_CONTROL_CODES")
     if not all(isinstance(c, int) for c in codes):
         raise Untranslatable("STRIP_CONTROL_CODES: not ints")
@@ -94,14 +156,20 @@ def gen_wrap_facts(repo):
     if len(dl) != 1:
         raise Untranslatable("Text.wrap: expected exactly one divide_line call")
     fold = _kw(dl[0], "fold")
+    if fold is None and len(dl[0].args) >= 3:
+        fold = dl[0].args[2]
+    fold = _resolve(wrap_f, fold)      # tolerate `fold = ... == "fold"` hoisted into a local
     ok = (isinstance(fold, ast.Compare) and len(fold.ops) == 1 and isinstance(fold.ops[0], ast.Eq)
-          and isinstance(fold.comparators[0], ast.Constant) and fold.comparators[0].value == "fold")
+          and any(isinstance(x, ast.Constant) and x.value == "fold" for x in (fold.left, fold.comparators[0]))
+          and not all(isinstance(x, ast.Constant) for x in (fold.left, fold.comparators[0])))
     out.append(f"Definition wrap_fold_iff_overflow_fold : bool := {_b(ok)}.\n")
-    # order of the per-line passes in wrap: rstrip_end, justify, truncate
+    # order of the passes the model composes (each consumes the previous one's result, so their order is
+    # semantic): expand_tabs, divide, rstrip_end, justify, truncate.  How the lines are collected
+    # (extend / += / append) is not pinned.
     names = []
     for node in ast.walk(wrap_f):
         if isinstance(node, ast.Call) and isinstance(node.func, ast.Attribute) and node.func.attr in (
-                "rstrip_end", "justify", "truncate", "expand_tabs", "divide", "extend"):
+                "rstrip_end", "justify", "truncate", "expand_tabs", "divide"):
             names.append((node.lineno, node.col_offset, node.func.attr))
     names = [n for _, _, n in sorted(names)]
     out.append("Definition wrap_pass_order : list (list Z) := [" + "; ".join(strlit(n) for n in names) + "].\n")
@@ -110,21 +178,39 @@ def gen_wrap_facts(repo):
         raise Untranslatable("Text.wrap: expected one truncate call")
     out.append(f"Definition wrap_truncate_pads : bool := {_b(_kw(tr[0], 'pad') is not None)}.\n")
 
-    # Lines.justify: which truncate calls pad
+    # Lines.justify: does the truncate of the left / center / right branch pad?  Keyed by the string the
+    # branch compares with, not by the order of the branches or the name of the compared variable.
     lines_c = find_class(cont_t, "Lines")
     just_f = find_func(lines_c.body, "justify")
+    by_mode = {}
+    for node in ast.walk(just_f):
+        if isinstance(node, ast.If) and isinstance(node.test, ast.Compare) and len(node.test.ops) == 1 \
+                and isinstance(node.test.ops[0], ast.Eq):
+            consts = [x.value for x in (node.test.left, node.test.comparators[0])
+                      if isinstance(x, ast.Constant) and isinstance(x.value, str)]
+            if len(consts) == 1:
+                calls = []
+                for stmt in node.body:
+                    calls += _calls(stmt, "truncate")
+                by_mode.setdefault(consts[0], []).extend(calls)
     pads = []
-    for c in sorted(_calls(just_f, "truncate"), key=lambda n: n.lineno):
-        p = _kw(c, "pad")
+    for mode in ("left", "center", "right"):
+        calls = by_mode.get(mode, [])
+        if len(calls) != 1:
+            raise Untranslatable(f"Lines.justify: expected exactly one truncate call in the {mode!r} branch")
+        p = _kw(calls[0], "pad")
         pads.append(p is not None and literal(p, "pad") is True)
     out.append("Definition justify_truncate_pads : list bool := [" + "; ".join(_b(p) for p in pads) + "].\n")
-    # default position argument of chop_cells call in divide_line
+    # the position chop_cells starts from is the running column of the current line (identified by dataflow:
+    # initialised to 0 before the loop, re-assigned / incremented in the loop by cell lengths), not a constant
     dlf = find_func(wrap_t.body, "divide_line")
     cc = _calls(dlf, "chop_cells")
     if len(cc) != 1:
         raise Untranslatable("divide_line: expected one chop_cells call")
     pos = _kw(cc[0], "position")
-    out.append(f"Definition chop_position_is_line_position : bool := {_b(isinstance(pos, ast.Name) and pos.id == 'line_position')}.\n")
+    if pos is None and len(cc[0].args) >= 3:
+        pos = cc[0].args[2]
+    out.append(f"Definition chop_position_is_line_position : bool := {_b(_is_running_column(dlf, pos))}.\n")
     # set_cell_size + ellipsis literal in truncate
     trf = find_func(text_c.body, "truncate")
     ell = [n.value for n in ast.walk(trf) if isinstance(n, ast.Constant) and isinstance(n.value, str) and len(n.value) == 1
